@@ -117,3 +117,36 @@ Example C04_example :
   map (fun p => (fst p, ac_bal (snd p))) (st_accts (cs_post cs_c04_state (cs_update_state cs_c04_cfg cs_c04_state 1 tx r)))
     = [(0, 2); (1, 30); (3, 88); (4, 70); (5, 30)].
 Proof. vm_compute. repeat split; reflexivity. Qed.
+
+(* ---- what the REAL storage contract queues (engine E-storage, model Model/Storage.v) ----
+   The chain-level theorems above are conditional on what the called contract queues.  For the
+   storagesc operations of Model/Storage.v (new / free allocation, write- and read-pool lock and
+   unlock, commit connection, challenges, update / finalize / cancel allocation, read markers,
+   kill / shutdown / settings of a blobber, assigners) the condition holds: the balances after a
+   transaction are the balances before it with at most one transfer applied, and that transfer
+   comes out of the contract's own wallet, or out of the sender (at most the transaction value),
+   or - free_allocation_request under a valid, unredeemed assigner marker only - out of the
+   configured owner wallet (at most the grant).  In particular update_allocation_request locks
+   the attached value out of the SENDER, whoever the request names as owner_id.  Proofs in
+   Proof/StorageAuth.v; the model is tied to the real contract by the storage engine, whose C04
+   oracle checks the same rule on the transfers the real contract queued. *)
+From ZC Require Import Model.F64 Model.Storage Proof.Storage Proof.StorageLedger Proof.StorageAuth.
+
+Theorem C04_storage_ops_transfers_authorised :
+  forall c s now round o s',
+  ss_op_wf o -> ss_apply c s now round o = Some s' ->
+  exists ms, st_bals s' = ss_moves_bals (st_bals s) ms /\ ss_moves_auth c s o ms /\
+             (st_c12 s -> rp_nonneg s -> ss_moves_nonneg ms).
+Proof. exact st_transfers_authorised. Qed.
+Print Assumptions C04_storage_ops_transfers_authorised.
+
+(* the same in terms of balances: whose balance a storagesc transaction can lower, and by how much *)
+Theorem C04_storage_ops_debits_authorised :
+  forall c s now round o s' id,
+  st_c12 s -> rp_nonneg s -> ss_op_wf o -> ss_apply c s now round o = Some s' ->
+  ss_bal s' id < ss_bal s id ->
+  id = cf_sc c \/
+  (id = ss_op_sender o /\ ss_bal s id - ss_bal s' id <= ss_op_value o) \/
+  (id = cf_owner c /\ exists grant, ss_free_grant s o grant /\ ss_bal s id - ss_bal s' id <= grant).
+Proof. exact ss_debits_authorised. Qed.
+Print Assumptions C04_storage_ops_debits_authorised.
